@@ -1,8 +1,9 @@
 """C02 — a box stream equals the lookups inside the box, for every kind of tile source: the five container readers
 (spec/Container.tla, StreamFails), the converting reader (Converter.tla, clause stream) and pipeline operations incl.
-nested overlays and filter chains (Pipeline.tla, clauses stream / stream_sem)."""
+nested overlays and filter chains (Pipeline.tla, clauses stream / stream_sem) and the vector-tile operations (VectorTile.tla,
+clause vt_stream_eq_lookup)."""
 from . import common as C
-from . import containers, pipelines, c06
+from . import containers, pipelines, c06, vtiles
 
 
 def run(tier, seed, replay):
@@ -18,4 +19,7 @@ def run(tier, seed, replay):
                         "filter_zoom / filter_bbox chains over a leaf or an overlay; converting reader: every 8th (thorough: every) "
                         "conversion case of MC_C06; only the stream clauses are collected here", nontrivial, run=run, finish=False)
     c06.converter_stream_stage(run, "C02", tier, replay, 1 if tier == "thorough" else 8)
+    if not replay:
+        nvt = vtiles.vt_stream_stage(run, tier, C.build_harness())
+        run.extra.update({"vector_tile_operation_cases (merge / update: stream = lookup for the coordinate)": nvt})
     return run.finish()
